@@ -147,11 +147,29 @@ Theorem C17_fresh_functions_return_new_objects_partial :
 Proof. intros. eapply fresh_call_returns_new; eauto. exact C17_program_checked_partial. Qed.
 Print Assumptions C17_fresh_functions_return_new_objects_partial.
 
-(* the hypotheses are met by real data: the builders the mechanism list of C17 names are in the fresh set *)
+(* the hypotheses are met by real data, and the regenerated fresh set is a CHECKED EXPECTATION for the public
+   constructors-of-values: each of them returns an object allocated during the call (never a module-level, cached or
+   argument-owned object); a change that makes one of them hand out shared storage drops it from the fresh set and
+   breaks this obligation *)
 Example C17_builders_are_fresh :
   forallb (fun nm => match find_idx nm names_C17 0 with Some k => memb k fresh_C17 | None => false end)
     ["spatialmath.base.transformsNd:rt2tr"; "spatialmath.base.transformsNd:r2t"; "spatialmath.base.transforms3d:trinv";
      "spatialmath.base.transforms3d:rotx"; "spatialmath.base.transforms3d:rpy2r"; "spatialmath.base.transforms2d:trinv2";
      "spatialmath.base.transforms3d:trnorm"; "spatialmath.base.transforms3d:tr2eul"; "spatialmath.base.transforms3d:tr2rpy";
      "spatialmath.base.transformsNd:skewa"; "spatialmath.base.quaternions:qqmul"] = true.
+Proof. vm_compute. reflexivity. Qed.
+
+Example C17_value_constructors_are_fresh :
+  forallb (fun nm => match find_idx nm names_C17 0 with Some k => memb k fresh_C17 | None => false end)
+    ["spatialmath.base.transforms3d:rotx"; "spatialmath.base.transforms3d:roty"; "spatialmath.base.transforms3d:rotz";
+     "spatialmath.base.transforms2d:rot2"; "spatialmath.base.transforms3d:trotx"; "spatialmath.base.transforms3d:troty";
+     "spatialmath.base.transforms3d:trotz"; "spatialmath.base.transforms2d:trot2"; "spatialmath.base.transformsNd:rodrigues";
+     "spatialmath.base.transforms3d:trexp"; "spatialmath.base.transforms2d:trexp2"; "spatialmath.base.transforms3d:angvec2r";
+     "spatialmath.base.transforms3d:angvec2tr"; "spatialmath.base.quaternions:q2r"; "spatialmath.base.quaternions:r2q";
+     "spatialmath.base.transforms3d:rpy2tr"; "spatialmath.base.transforms3d:eul2r"; "spatialmath.base.transforms3d:eul2tr";
+     "spatialmath.base.transforms3d:oa2r"; "spatialmath.base.transforms3d:oa2tr"; "spatialmath.base.transformsNd:skew";
+     "spatialmath.base.transforms3d:delta2tr"; "spatialmath.base.transforms2d:xyt2tr"; "spatialmath.base.transformsNd:Ab2M";
+     "spatialmath.base.quaternions:conj"; "spatialmath.base.quaternions:pure"; "spatialmath.base.quaternions:eye";
+     "spatialmath.base.transforms3d:trlog"; "spatialmath.base.transformsNd:vex"; "spatialmath.base.transformsNd:vexa";
+     "spatialmath.base.transformsNd:e2h"; "spatialmath.base.transformsNd:h2e"; "spatialmath.base.vectors:unitvec"] = true.
 Proof. vm_compute. reflexivity. Qed.
